@@ -10,7 +10,7 @@ from . import core
 FUEL = 150
 
 
-def _worker(batch):
+def _worker(batch, slow=False):
     from . import impl
     from .export import ExportError
     out = []
@@ -18,7 +18,7 @@ def _worker(batch):
         gid, desc, texts, opts = job
         rec = {'gid': gid, 'desc': desc, 'cases': []}
         try:
-            g, ex = impl.build(desc)
+            g, ex = impl.build(desc, slow=slow)
         except impl.Timeout:
             rec['grammar_error'] = 'timeout'
             out.append(rec)
@@ -35,7 +35,8 @@ def _worker(batch):
         rec['named'] = hasattr(g, '_ctx')
         entries = opts.get('entries')
         if entries is None:
-            entries = [ex['rule_names'].index('start')] if 'start' in ex['rule_names'] else [0]
+            low = [n.lower() for n in ex['rule_names']]
+            entries = [low.index('start')] if 'start' in low else [0]
         elif entries == 'all':
             entries = [i for i, n in enumerate(ex['rule_names']) if not n.startswith('_')
                        and not ex['rules'][i][0]]
@@ -63,6 +64,35 @@ def request_line(rec, lf=True):
     return core.sx(['runs', lf, rec['named'], ex['ignored'], ex['rules'], ex['funs'], FUEL, cases])
 
 
+def _recheck_timeouts(recs, jobs):
+    """a 'timeout' observed by a worker may be machine load: repeat those observations here, generously"""
+    from . import impl
+    byid = {j[0]: j for j in jobs}
+    for k, r in enumerate(recs):
+        if r.get('grammar_error') == 'timeout':
+            fresh = _worker([byid[r['gid']]], slow=True)[0]
+            recs[k] = fresh
+            r = fresh
+        if 'ex' not in r:
+            continue
+        if any(c[5] == 'timeout' or c[6] == 'timeout' for c in r['cases']):
+            opts = byid[r['gid']][3]
+            try:
+                g, ex = impl.build(r['desc'], slow=True)
+            except Exception:                   # noqa
+                continue
+            for i, c in enumerate(r['cases']):
+                text, rxt, entry, pos, full, x, p = c
+                t = text.encode('latin-1') if opts.get('bytes') else text
+                if x == 'timeout':
+                    x = impl.observe_raw(g, ex, entry, t, pos, timeout=2.0)
+                if p == 'timeout':
+                    p = impl.observe_parse(g, ex, entry, t, pos, full, timeout=2.0,
+                                           module_level=opts.get('module_level', False))
+                r['cases'][i] = (text, rxt, entry, pos, full, x, p)
+    return recs
+
+
 def run_grammars(jobs, procs=None, chunk=40):
     """jobs: list of (gid, desc, texts, opts) -> list of records with model results attached:
        rec['model'] = list of (mx, ms, mp, mq) aligned with rec['cases']"""
@@ -77,6 +107,7 @@ def run_grammars(jobs, procs=None, chunk=40):
         with ctx.Pool(procs, maxtasksperchild=20) as pool:
             for out in pool.imap(_worker, batches):
                 recs += out
+    recs = _recheck_timeouts(recs, jobs)
     live = [r for r in recs if 'ex' in r and r['cases']]
     lines = [request_line(r) for r in live]
     outs = core.run_driver(lines, raw=True)
